@@ -209,3 +209,18 @@ Fixpoint py_list_ltb {A} (ltb eqb : A -> A -> bool) (l1 l2 : list A) : bool :=
   | _ :: _, [] => false
   | x :: xs, y :: ys => if eqb x y then py_list_ltb ltb eqb xs ys else ltb x y
   end.
+
+(* range(a, b) *)
+Definition py_range (a b : Z) : list Z := map (fun i => (a + Z.of_nat i)%Z) (seq 0 (Z.to_nat (b - a))).
+
+(* itertools.combinations(l, k), in itertools' order; a negative k is a ValueError *)
+Fixpoint py_combs {A} (k : nat) (l : list A) : list (list A) :=
+  match k with
+  | O => [[]]
+  | S k' => match l with
+            | [] => []
+            | x :: xs => map (cons x) (py_combs k' xs) ++ py_combs k xs
+            end
+  end.
+Definition py_combinations {A} (l : list A) (k : Z) : result (list (list A)) :=
+  if (k <? 0)%Z then Err ValueError else Ok (py_combs (Z.to_nat k) l).
